@@ -6,19 +6,191 @@ From Coq Require Import ZArith.
 Definition lossless (t : ty) (j : json) : Prop :=
   exists v, structure t j = Ok v /\ approx (unstructure v) j = true.
 
-(* ---------------- witnesses ---------------- *)
-Definition k_x : str := [120]. Definition k_y : str := [121]. Definition k_z : str := [122]. Definition k_t : str := [116].
-Definition k_q : str := [113].
+(* ------------------------------------------------------------------------------------- *)
+(* induction principles for the nested inductives                                         *)
+Definition disc_all (P : ty -> Prop) (d : option (str * list (str * ty))) : Prop :=
+  match d with Some pm => Forall (fun q => P (snd q)) (snd pm) | None => True end.
+
+Section TyInd.
+  Variable P : ty -> Prop.
+  Hypothesis HNone : P TNone.
+  Hypothesis HAny : P TAny.
+  Hypothesis HStr : P TStr.
+  Hypothesis HInt : P TInt.
+  Hypothesis HBool : P TBool.
+  Hypothesis HList : forall e, P e -> P (TList e).
+  Hypothesis HMap : forall e, P e -> P (TMap e).
+  Hypothesis HObj : forall n fs, Forall (fun f => P (fst (snd f))) fs -> P (TObj n fs).
+  Hypothesis HUnion : forall d vs, disc_all P d -> Forall P vs -> P (TUnion d vs).
+  Fixpoint ty_ind' (t : ty) : P t :=
+    match t with
+    | TNone => HNone | TAny => HAny | TStr => HStr | TInt => HInt | TBool => HBool
+    | TList e => HList e (ty_ind' e)
+    | TMap e => HMap e (ty_ind' e)
+    | TObj n fs =>
+        HObj n fs ((fix go (fs : list (str * (ty * bool))) : Forall (fun f => P (fst (snd f))) fs :=
+                      match fs with
+                      | [] => Forall_nil _
+                      | (k, (ft, r)) :: rest => @Forall_cons _ (fun f => P (fst (snd f))) (k, (ft, r)) rest (ty_ind' ft) (go rest)
+                      end) fs)
+    | TUnion d vs =>
+        HUnion d vs
+          (match d as d0 return disc_all P d0 with
+           | None => I
+           | Some pm =>
+               (fix go (m : list (str * ty)) : Forall (fun q => P (snd q)) m :=
+                  match m with
+                  | [] => Forall_nil _
+                  | (s, V) :: rest => @Forall_cons _ (fun q => P (snd q)) (s, V) rest (ty_ind' V) (go rest)
+                  end) (snd pm)
+           end)
+          ((fix go (vs : list ty) : Forall P vs :=
+              match vs with
+              | [] => Forall_nil _
+              | v :: rest => Forall_cons _ (ty_ind' v) (go rest)
+              end) vs)
+    end.
+End TyInd.
+
+Section JsonInd.
+  Variable P : json -> Prop.
+  Hypothesis HNull : P JNull.
+  Hypothesis HBool : forall b, P (JBool b).
+  Hypothesis HInt : forall z, P (JInt z).
+  Hypothesis HStr : forall s, P (JStr s).
+  Hypothesis HArr : forall l, Forall P l -> P (JArr l).
+  Hypothesis HObj : forall kv, Forall (fun p => P (snd p)) kv -> P (JObj kv).
+  Fixpoint json_ind' (j : json) : P j :=
+    match j with
+    | JNull => HNull | JBool b => HBool b | JInt z => HInt z | JStr s => HStr s
+    | JArr l => HArr l ((fix go (l : list json) : Forall P l :=
+                           match l with [] => Forall_nil _ | x :: r => Forall_cons _ (json_ind' x) (go r) end) l)
+    | JObj kv => HObj kv ((fix go (kv : list (str * json)) : Forall (fun p => P (snd p)) kv :=
+                             match kv with
+                             | [] => Forall_nil _
+                             | (k, x) :: r => @Forall_cons _ (fun p => P (snd p)) (k, x) r (json_ind' x) (go r)
+                             end) kv)
+    end.
+End JsonInd.
+
+(* ------------------------------------------------------------------------------------- *)
+(* Discriminator theorems                                                                  *)
+Lemma apply_map_in : forall S m d V j,
+  NoDup (map fst m) -> In (d, V) m -> apply_map S m d j = Some (S V j).
+Proof.
+  induction m as [|[d' V'] m IH]; intros d V j Hnd Hin; simpl in *.
+  - contradiction.
+  - inversion Hnd as [|? ? Hnotin Hnd']; subst.
+    destruct Hin as [Heq | Hin].
+    + inversion Heq; subst. rewrite str_eqb_refl. reflexivity.
+    + destruct (str_eqb d d') eqn:E.
+      * apply str_eqb_eq in E. subst d'. exfalso. apply Hnotin.
+        change d with (fst (d, V)). apply in_map. exact Hin.
+      * apply IH; assumption.
+Qed.
+
+Lemma apply_map_notin : forall S m d j, ~ In d (map fst m) -> apply_map S m d j = None.
+Proof.
+  induction m as [|[d' V'] m IH]; intros d j Hn; simpl in *.
+  - reflexivity.
+  - destruct (str_eqb d d') eqn:E.
+    + apply str_eqb_eq in E. subst. exfalso. apply Hn. left. reflexivity.
+    + apply IH. intro H. apply Hn. right. exact H.
+Qed.
+
+(* the variant is exactly the one the discriminator value maps to: the result IS the structuring of
+   the mapped variant V (a value of V or an error) — no other variant is consulted *)
+Lemma disc_exact : forall p m vs kv d V,
+  NoDup (map fst m) -> In (d, V) m -> alookup p kv = Some (JStr d) ->
+  structure_union (Some (p, m)) vs (JObj kv) = structure V (JObj kv).
+Proof.
+  intros p m vs kv d V Hnd Hin Hp.
+  unfold structure_union. simpl. unfold union_body, by_discriminator. rewrite Hp.
+  destruct m as [|m0 m']; [contradiction|].
+  rewrite (apply_map_in structure (m0 :: m') d V (JObj kv) Hnd Hin). reflexivity.
+Qed.
+
+(* a payload of a mapped variant that fails to decode is reported, not retried as another variant *)
+Lemma no_retry : forall p m vs kv d V,
+  NoDup (map fst m) -> In (d, V) m -> alookup p kv = Some (JStr d) ->
+  structure V (JObj kv) = Err ->
+  structure_union (Some (p, m)) vs (JObj kv) = Err.
+Proof. intros. erewrite disc_exact; eauto. Qed.
+
+(* an unmapped value (of any JSON kind) with a non-empty mapping is an error, never a guess *)
+Lemma disc_unknown : forall p m vs kv dv,
+  m <> [] -> alookup p kv = Some dv ->
+  (forall s, dv = JStr s -> ~ In s (map fst m)) ->
+  structure_union (Some (p, m)) vs (JObj kv) = Err.
+Proof.
+  intros p m vs kv dv Hm Hp Hun.
+  unfold structure_union. simpl. unfold union_body, by_discriminator. rewrite Hp.
+  destruct m as [|m0 m']; [congruence|].
+  destruct dv; try reflexivity.
+  rewrite apply_map_notin; [reflexivity|]. apply Hun. reflexivity.
+Qed.
+
+(* what the discriminator does NOT decide (F14d): without a mapping, or when the property is absent,
+   the decode is the sequential guess *)
+Lemma disc_fallthrough : forall p m vs kv,
+  (m = [] \/ alookup p kv = None) ->
+  structure_union (Some (p, m)) vs (JObj kv) = sequential structure vs (JObj kv).
+Proof.
+  intros p m vs kv H. unfold structure_union. simpl. unfold union_body, by_discriminator.
+  destruct (alookup p kv) eqn:E.
+  - destruct H as [H|H]; [subst; reflexivity|discriminate].
+  - reflexivity.
+Qed.
+
+(* ------------------------------------------------------------------------------------- *)
+(* Witnesses: the full statement  [conforms (nth k vs) j -> lossless (TUnion d vs) j]  is false *)
+Definition k_x : str := [120]. Definition k_y : str := [121]. Definition k_z : str := [122].
+Definition k_t : str := [116]. Definition k_q : str := [113].
 Definition tA := TObj [65] [(k_x, (TInt, true))].
 Definition tB := TObj [66] [(k_x, (TInt, true)); (k_y, (TInt, true))].
+Definition n_Ta : str := [84;97]. Definition n_Tb : str := [84;98].
+Definition tTa := TObj n_Ta [(k_t, (TStr, true)); (k_x, (TInt, true))].
+Definition tTb := TObj n_Tb [(k_t, (TStr, true)); (k_x, (TInt, true)); (k_y, (TInt, true))].
+
+Ltac refute :=
+  repeat split; try (vm_compute; reflexivity);
+  let v := fresh "v" in let H1 := fresh "H1" in let H2 := fresh "H2" in
+  intros [v [H1 H2]]; vm_compute in H1;
+  first [discriminate H1 | (inversion H1; subst; vm_compute in H2; discriminate H2)].
 
 (* F14a: [A{x}; B{x,y}] with {x:1,y:2} is decoded as A(x=1): key y is discarded *)
 Definition u_F14a := TUnion None [tA; tB].
 Definition j_F14a := JObj [(k_x, JInt 1%Z); (k_y, JInt 2%Z)].
 Lemma refuted_F14a :
-  conforms tB j_F14a = true /\ safe u_F14a j_F14a = false /\
+  conforms (nth 1 [tA; tB] TNone) j_F14a = true /\ safe u_F14a j_F14a = false /\
   structure u_F14a j_F14a = Ok (VObj [65] [(k_x, VInt 1%Z)]) /\ ~ lossless u_F14a j_F14a.
-Proof.
-  repeat split; try (vm_compute; reflexivity).
-  intros [v [H1 H2]]. vm_compute in H1. inversion H1; subst. vm_compute in H2. discriminate.
-Qed.
+Proof. refute. Qed.
+
+(* F14b: Union[str, int] with 5 is decoded as "5" *)
+Definition u_F14b := TUnion None [TStr; TInt].
+Definition j_F14b := JInt 5%Z.
+Lemma refuted_F14b :
+  conforms (nth 1 [TStr; TInt] TNone) j_F14b = true /\ safe u_F14b j_F14b = false /\
+  structure u_F14b j_F14b = Ok (VStr [53]) /\ ~ lossless u_F14b j_F14b.
+Proof. refute. Qed.
+
+(* F14d: a discriminator WITHOUT mapping does not select the variant: {t:"Tb",x:1,y:2} becomes Ta, y lost *)
+Definition u_F14d := TUnion (Some (k_t, [])) [tTa; tTb].
+Definition j_F14d := JObj [(k_t, JStr n_Tb); (k_x, JInt 1%Z); (k_y, JInt 2%Z)].
+Lemma refuted_F14d :
+  conforms (nth 1 [tTa; tTb] TNone) j_F14d = true /\ safe u_F14d j_F14d = false /\
+  structure u_F14d j_F14d = Ok (VObj n_Ta [(k_t, VStr n_Tb); (k_x, VInt 1%Z)]) /\ ~ lossless u_F14d j_F14d.
+Proof. refute. Qed.
+(* ... whereas the same union WITH the mapping decodes it as Tb, losslessly *)
+Example mapped_F14d_ok :
+  structure (TUnion (Some (k_t, [(n_Ta, tTa); (n_Tb, tTb)])) [tTa; tTb]) j_F14d
+  = Ok (VObj n_Tb [(k_t, VStr n_Tb); (k_x, VInt 1%Z); (k_y, VInt 2%Z)]).
+Proof. vm_compute. reflexivity. Qed.
+
+(* F14e: Union[A, dict[str,int]] with {q:1}: a conforming payload of the map variant is rejected *)
+Definition u_F14e := TUnion None [tA; TMap TInt].
+Definition j_F14e := JObj [(k_q, JInt 1%Z)].
+Lemma refuted_F14e :
+  conforms (nth 1 [tA; TMap TInt] TNone) j_F14e = true /\ safe u_F14e j_F14e = false /\
+  structure u_F14e j_F14e = Err /\ ~ lossless u_F14e j_F14e.
+Proof. refute. Qed.
